@@ -338,7 +338,12 @@ func (g *CallGraph) resolve(v ssa.Value, seen map[ssa.Value]bool) ([]fref, bool)
 		for _, c := range callees {
 			if c.param < 0 && !g.p.InRepo(c.fn) {
 				// function value manufactured by an external function: not a repo function
-				// (repo callbacks handed to externals are covered by the extcallback edges)
+				// (repo callbacks handed to externals are covered by the extcallback edges). The iterators of the
+				// standard library are the exception worth naming: calling what slices.Backward(s) returned is a
+				// call into that package which calls the yield function back
+				if _, isIter := stdIteratorConstructor(x.Common()); isIter {
+					out = append(out, fref{c.fn, -1})
+				}
 				continue
 			}
 			if c.param >= 0 || c.fn.Blocks == nil {
